@@ -119,6 +119,43 @@ def work_skeleton(task):
     return acc.result()
 
 
+def work_long_skeleton(task):
+    """the control skeleton on 24000 stacked points: consecutive scripted labellings that differ in ONE label
+    (then in two, then not at all) - a loop that measures change as a rounded fraction stops too early here"""
+    from vlib import lib
+    from vlib.ctx import Acc
+    lib.load("nojit")
+    (limit,) = task
+    acc = Acc()
+    d = ml.get_driver("long24k", 0)
+    base = [0 if i < d.Tp // 2 else 1 for i in range(d.Tp)]
+    outs = []
+    cur = list(base)
+    for r in range(limit):
+        if r < limit - 1:
+            cur = list(cur)
+            cur[d.Tp // 2 + 7 * (r + 1)] = 0            # one more label changes in every round but the last
+        outs.append(list(cur))
+    script = outs + [outs[-1]] * 2
+    shifted = [0 if i < d.Tp // 2 - 5 else 1 for i in range(d.Tp)]
+    rec = ml.real_run(d, tuple(shifted), limit, (), entry="fit", relabel_script=script, deep=False)
+    acc.n += 1
+    acc.nontrivial += 1
+    case = {"kind": "long_skeleton", "limit": limit}
+    if rec.error is not None:
+        acc.fail(case, f"24000-point skeleton raised {type(rec.error).__name__}: {rec.error}")
+        return acc.result()
+    n, _ = ml.final_round(rec)
+    # rounds r and r-1 differ for r < limit-1; the last two scripted outputs are equal: the run may stop only at `limit`
+    if n != limit:
+        acc.fail(case, f"24000 stacked points, relabel outputs differing in one label per round (identical only in rounds "
+                       f"{limit - 1} and {limit}), limit {limit}: stopped after {n} rounds")
+    got = tuple(ml.stacked_labels(rec))
+    if n >= 1 and n <= limit and got != tuple(outs[n - 1]):
+        acc.fail(case, f"24000-point skeleton: returned labels are not round {n}'s output")
+    return acc.result()
+
+
 def run(ctx):
     from vlib import lib
     lib.load("nojit")
@@ -126,6 +163,8 @@ def run(ctx):
     sk = [(limit, [f], ("first", "last")) for limit in range(1, top + 1) for f in sorted(SK_ALPHA)]
     sk += [(limit, [f], ("first",), ["C09"], "skel_nodonor") for limit in (2, 3) for f in sorted(SK_ALPHA)]
     for r in ctx.pmap(work_skeleton, sk):
+        ctx.take(r)
+    for r in ctx.pmap(work_long_skeleton, [(3,), (5,)]):
         ctx.take(r)
     ps = plans(ctx)
     ml.explore(ctx, ps)
@@ -135,7 +174,8 @@ def run(ctx):
     ctx.cov["rule"] = (
         "control skeleton: the relabel phase's output replaced by a scripted labelling - every sequence over "
         "{balanced, shifted, one cluster empty, singleton, other balanced} of length = iteration limit 1.." + str(top) +
-        " x donor draw {first, last} through the real main loop (stop rule, repopulation timing, what is returned); "
+        " x donor draw {first, last} through the real main loop (stop rule, repopulation timing, what is returned); the same on 24000 stacked points "
+        "with scripted outputs that differ in exactly one label per round (limits 3 and 5); "
         "evaluations = complete real runs of fit_stacked_data (every initial labelling x limit x donor "
         "script with at most `donor_deviation_bound` non-default draws; all C(n,m) subsets per draw when "
         "<= subset_cap, else first/last/alternating m); states = distinct (labelling, donor-ranking spreads) reached; transitions = applications "
@@ -148,6 +188,9 @@ def run(ctx):
 
 
 def replay(ctx, case):
+    if case.get("kind") == "long_skeleton":
+        ctx.take(work_long_skeleton((case["limit"],)))
+        return
     if case.get("kind") == "skeleton":
         from vlib import lib
         lib.load("nojit")
